@@ -198,6 +198,7 @@ def c14(ctx):
                 "callbacks, exact NOP-filled tape, every read API, marshalling (Iter, Array, Elements) and a serialize round trip "
                 "compared after the last operation. Non-trivial = history with at least one operation.")
     edit_replay(ctx, "del_q" if quick(ctx) else "del_t", "C14", sermodes=1 if quick(ctx) else 2)
+    edit_replay(ctx, "tagbytes", "C14", sermodes=4)     # numbers whose value word starts with a tag byte, inside deleted containers
     edit_replay(ctx, "del3q" if quick(ctx) else "del3", "C14")      # histories of three operations
     ctx.exhaustive = True
 
